@@ -12,7 +12,7 @@ CHECKS = [
     {
         "id": "C11",
         "technique": "Hypothesis-generated operation histories (stateful, op-list form) over a scripted socket with a history invariant; reader(socket) vs reader(file) differential",
-        "text": "Generated histories of peer sends / timeouts / OS errors / close interleaved with read(n) and readline on SocketWrapper at seven bufsizes; after every step delivered ++ buffered must equal everything recv() handed out, read sizes and readline termination must obey the contract; RTCMReader over a socket with generated segmentation must return what RTCMReader over BytesIO returns.",
+        "text": "Generated histories of peer sends / timeouts / OS errors / close interleaved with read(n) and readline on SocketWrapper at seven bufsizes; after every step delivered ++ buffered must equal everything recv() handed out, read sizes and readline termination must obey the contract; RTCMReader over a socket with generated segmentation must return what RTCMReader over BytesIO returns. Histories use every OSError subclass as a fault and include 96 KiB .. 2.5 MiB (thorough 9 MiB) streams through one wrapper; the same operations are also driven by a Hypothesis RuleBasedStateMachine.",
         "note": "Scripted sockets stand for the kernel; real socket options are represented only by TimeoutError / OSError from recv().",
     },
     {
@@ -24,7 +24,7 @@ CHECKS = [
     {
         "id": "C13",
         "technique": "Hypothesis-generated parse histories (op lists) with deep table digests + generated deterministic thread schedules (harness-owned line-level scheduler) + free-running thread stress",
-        "text": "Generated histories of valid / failing / mixed-type parses through four entry points and a long-lived reader: each result must equal the independent interpreter's expectation and the first parse of the same bytes, and the definition / lookup tables must keep their import-time digest after every step; 2-4 parse jobs are interleaved at source-line granularity following a generated choice list and must give the sequential results; an 8-thread free-running stress with a 1 microsecond switch interval backs this up.",
+        "text": "Generated histories of valid / failing / mixed-type parses through four entry points and a long-lived reader: each result must equal the independent interpreter's expectation and the first parse of the same bytes, and the definition / lookup tables must keep their import-time digest after every step; 2-4 parse jobs are interleaved at source-line granularity following a generated choice list and must give the sequential results; an 8-thread free-running stress with a 1 microsecond switch interval backs this up. Also: fresh child interpreters in which six threads parse and checksum at once before anything else was parsed (lazy initialisation), sibling re-numberings (same masks under another constellation), immediate repeats of failing frames on a long-lived reader, and a hash-built workload with thousands of distinct group-index tuples in the thread stress.",
         "note": "Interleavings finer than a source line and GIL-free parallelism are not explored.",
     },
     {
@@ -36,7 +36,7 @@ CHECKS = [
     {
         "id": "C19",
         "technique": PBT + " (the interpreter knows the originating field key and index tuple of every generated name) + complete static sweep of the definitions",
-        "text": "datadesc / att2idx / att2name are evaluated on every attribute name of generated messages of every identity (two- and three-digit indices, two nesting levels) and on every field key of every definition with synthetic 1/2/3-digit indices at its nesting depth; expected results come from the interpreter's knowledge of key and indices.",
+        "text": "datadesc / att2idx / att2name are evaluated on every attribute name of generated messages of every identity (two- and three-digit indices, two nesting levels) and on every field key of every definition with synthetic 1/2/3-digit indices at its nesting depth; expected results come from the interpreter's knowledge of key and indices. The names and the helpers' answers are also produced in a python -O child interpreter.",
         "note": "Nothing is asserted about att2idx / att2name on un-indexed names.",
     },
     {
@@ -48,19 +48,19 @@ CHECKS = [
     {
         "id": "C16",
         "technique": PBT + " metamorphic relation between label options across three entry points",
-        "text": "Generated MSM payloads of all 49 types parsed under label options 1, 2, 0 and True through RTCMMessage, the static parser and a stream reader: only CELLSIG_* may differ, True == 1, each signal ID keeps the label of a single-signal probe message; generated non-MSM messages of every identity are identical under all options.",
+        "text": "Generated MSM payloads of all 49 types parsed under label options 1, 2, 0 and True through RTCMMessage, the static parser and a stream reader: only CELLSIG_* may differ, True == 1, each signal ID keeps the label of a single-signal probe message; generated non-MSM messages of every identity are identical under all options. One reader per option value is constructed before any is read (options must be bound to the instance), with validation on and off; the two options are also parsed concurrently in threads.",
         "note": "What option value 0 selects is not documented; only 'CELLSIG_* at most' is required of it.",
     },
     {
         "id": "C18",
         "technique": PBT + " (helper output vs getattr on the message and vs the independent interpreter) + complete sweep of reserved MSM numbers",
-        "text": "parse_msm on generated MSM messages of all 49 types must agree entry by entry with the flat attributes and the interpreter's values, with the pinned epoch field; parse_4076_201 on generated 4076_201 messages (1-4 layers, up to 153 coefficients) must return exactly the decoded cosine / sine lists; on every other identity and every number in 1070..1229 without a definition both helpers must return None without raising.",
+        "text": "parse_msm on generated MSM messages of all 49 types must agree entry by entry with the flat attributes and the interpreter's values, with the pinned epoch field; parse_4076_201 on generated 4076_201 messages (1-4 layers, up to 153 coefficients) must return exactly the decoded cosine / sine lists; on every other identity and every number in 1070..1229 without a definition both helpers must return None without raising. Both label options are converted for the same payload and another message in between, and every earlier result is checked again afterwards.",
         "note": "Constellation name strings are not pinned.",
     },
     {
         "id": "C01",
         "technique": PBT + " (recording / fault-injecting stream double + independent frame validator) + atheris coverage-guided fuzzing with the same oracle inside the target",
-        "text": "Generated adversarial streams (valid, bit-damaged, truncated and decoy frames, frames nested in UBX/NMEA/other frames, sync-dense noise) crossed with generated scripts of short and empty reads and all error modes; every delivered pair must be a well-formed frame by the harness's own validator, a contiguous in-order non-overlapping slice of the bytes handed out, with matching payload and message number. Sampled search.",
+        "text": "Generated adversarial streams (valid, bit-damaged, truncated and decoy frames, frames nested in UBX/NMEA/other frames, sync-dense noise) crossed with generated scripts of short and empty reads and all error modes; every delivered pair must be a well-formed frame by the harness's own validator, a contiguous in-order non-overlapping slice of the bytes handed out, with matching payload and message number. Sampled search. Streams also go through a scripted socket with timeouts / OS errors between segments; items include CRC-twin frames (same trailer, different payload), zero-body-CRC and jumbo (reserved bits as length) decoys and frames with look-alike trailers; deliveries are judged after the whole stream has been read.",
         "note": "Trusts the harness's CRC / frame validator; which frames are delivered is left to C02/C05.",
     },
     {
@@ -72,7 +72,7 @@ CHECKS = [
     {
         "id": "C05",
         "technique": PBT + " (list model of the stream: undamaged frames, handler / log-record / exception counts)",
-        "text": "Generated streams of valid frames with generated subsets damaged by guaranteed-detectable patterns at generated positions, under ignore / log+handler / log without handler / raise; the reader must return exactly the undamaged frames in order, report once per damaged frame in log mode, never in ignore mode, and in raise mode raise at each damaged frame in event order while the same reader keeps working.",
+        "text": "Generated streams of valid frames with generated subsets damaged by guaranteed-detectable patterns at generated positions, under ignore / log+handler / log without handler / raise; the reader must return exactly the undamaged frames in order, report once per damaged frame in log mode, never in ignore mode, and in raise mode raise at each damaged frame in event order while the same reader keeps working. Also enumerated completely: every message number in a 2-byte-payload frame x every single-bit damage position; long runs (1200 / 10000) of consecutive damaged frames; re-broadcast frames damaged twice; handler objects of several kinds (incl. falsy callables).",
         "note": "Damage is confirmed detectable by the harness's CRC reference before use.",
     },
     {
@@ -90,19 +90,19 @@ CHECKS = [
     {
         "id": "C14",
         "technique": PBT + " over assignment sequences with full before/after snapshots",
-        "text": "Generated messages of every kind x generated sequences of setattr on public, derived, private, property and fresh names with values of several types; each must raise RTCMMessageError and payload, identity, attributes, str, repr, serialize() and the private dict must be unchanged.",
+        "text": "Generated messages of every kind x generated sequences of setattr on public, derived, private, property and fresh names with values of several types; each must raise RTCMMessageError and payload, identity, attributes, str, repr, serialize() and the private dict must be unchanged. Messages come from every entry point (constructor, static parser, file and socket readers, copy, deepcopy, pickle); augmented assignment is tried as well; failing and succeeding constructions of other messages are interleaved with the attempts.",
         "note": "del / __dict__ pokes / object.__setattr__ are outside the statement.",
     },
     {
         "id": "C15",
         "technique": "complete enumeration of the 4096 x 256 header space (generated tails) against an arithmetic reference, plus PBT over full payloads of implemented identities",
-        "text": "All 4096 message numbers x all 256 sub-type byte values are constructed on every run (about 1.05 M constructor calls in the quick tier, more tails and versions in thorough); identity, DF002, stub preservation, canonical serialisation and the MSM predicate are judged against an arithmetic reference and a pinned MSM roster.",
+        "text": "All 4096 message numbers x all 256 sub-type byte values are constructed on every run (about 1.05 M constructor calls in the quick tier, more tails and versions in thorough); identity, DF002, stub preservation, canonical serialisation and the MSM predicate are judged against an arithmetic reference and a pinned MSM roster. Also: fresh child interpreters where several threads construct messages of implemented identities at once (lazily built dispatch).",
         "note": "Exhaustive over headers; tails are deterministic samples.",
     },
     {
         "id": "C17",
         "technique": PBT + " differential between reader configurations over a recording stream double",
-        "text": "Generated streams of valid, wrong-CRC and foreign items read under validate x parsed x labelmsm x quitonerror; validate=0 must return every frame decoded as with the right CRC, parsed=False the same raw frames with no objects, and byte accounting per frame must be identical in every configuration.",
+        "text": "Generated streams of valid, wrong-CRC and foreign items read under validate x parsed x labelmsm x quitonerror; validate=0 must return every frame decoded as with the right CRC, parsed=False the same raw frames with no objects, and byte accounting per frame must be identical in every configuration. Readers for all configurations are optionally constructed up-front; streams are a recording double or a genuine io.BufferedReader with a generated buffer size; DEBUG logging is a generated option.",
         "note": "No read faults injected here.",
     },
     {
@@ -114,13 +114,13 @@ CHECKS = [
     {
         "id": "C03",
         "technique": PBT + " (independent interpreter of the definition tables) + two metamorphic relations",
-        "text": "Every defined identity is exercised on every run: payloads are laid out by an independent definition interpreter from generated raw field values (extremes biased, counters up to 1023 bytes) and the parser's public attributes must equal the interpreter's names, order and values; plus one-field-change and trailing-bytes metamorphic relations. Sampled over values; complete over identities.",
+        "text": "Every defined identity is exercised on every run: payloads are laid out by an independent definition interpreter from generated raw field values (extremes biased, counters up to 1023 bytes) and the parser's public attributes must equal the interpreter's names, order and values; plus one-field-change and trailing-bytes metamorphic relations. Sampled over values; complete over identities. Also: the same decode through one stream reader fed CRC-twin frames, in a python -O child interpreter, with every counter at its 1023-byte maximum for every identity, and for semantically consistent Unicode 1029 texts.",
         "note": "The interpreter reads the repository's data-field and payload tables as data (their conformance to the standards is C10); shares no code with rtcmmessage.py.",
     },
     {
         "id": "C08",
         "technique": PBT + " (two independent CRC-24Q references); exhaustive single-bit / burst-start sweeps per generated frame",
-        "text": "Generated byte strings 0..1029 compared with two independent CRC-24Q implementations; generated valid frames x guaranteed-detectable damage patterns must raise RTCMParseError (all single-bit positions and all burst starts enumerated per frame); validate=0 differential. Sampled over frames, so no absence claim.",
+        "text": "Generated byte strings 0..1029 compared with two independent CRC-24Q implementations; generated valid frames x guaranteed-detectable damage patterns must raise RTCMParseError (all single-bit positions and all burst starts enumerated per frame); validate=0 differential. Sampled over frames, so no absence claim. Frames include nested-prefix, encapsulating (prefix and suffix are codewords), zero-CRC and chosen-trailer frames; a validate=0 parse followed by a validating parse of the same damaged bytes; first use of the CRC helper by several threads at once in fresh interpreters.",
         "note": "Trusts the harness's CRC references (checked against the catalogue value 0xCDE703) and Hypothesis' generators.",
     },
 ]
